@@ -22,6 +22,9 @@ def evaluate(case):
     pvt = mp.interp_pvt(tb, rho)
     krt = mp.kr_table(**KRS[case["kr"]])
     kr = mp.interp_kr(krt)
+    so_used = tb["So"] if case["So"] is None else np.array([case["So"]])
+    if so_used.max() > krt["So"].max():  # saturations must lie inside the rel-perm table
+        return {"violations": [], "outcome": "n/a"}
     phi, Sw = case["phi"], case["Sw"]
     So = np.full_like(p, case["So"]) if case["So"] is not None else tb["So"]
     if np.any(1 - So - Sw < -1e-12):
